@@ -669,7 +669,9 @@ def _model(case, spec, img, isolist, mech, recover_ok):
         case.note('model_not_judged_no_converged_run', 1)
         return
     run_lo, run_hi = float(nzi[best[0] + m_lo].sma), float(nzi[best[1] - 1 - m_hi].sma)
-    lo = max(run_lo + 1.0, 3.0)
+    # (inner bound: also semi-minor axis >= 2.5 px - thinner ellipses are not resolved by the pixel grid, same
+    #  criterion as for the sample means)
+    lo = max(run_lo + 1.0, 3.0, 2.5 / (1.0 - spec['eps']))
     hi = min(run_hi, rin) - 1.0
     inner = (rr > lo) & (rr < hi)
     if inner.sum() >= 50:
